@@ -236,8 +236,15 @@ def check_edit_sequence(ctx, case):
     k, fast = case["k"], case["fast"]
     shuf = table_of(case["table"], k)
     live = G.hex_to_acc(k, case["states"][0]["arcs"])
+    trng = __import__("random").Random(len(case["states"]) * 7919 + k)
     for i, st in enumerate(case["states"]):
         live[...] = G.hex_to_acc(k, st["arcs"])
+        if shuf is not None and i > 0:
+            for _r in range(max(1, len(shuf) // 3)):       # rows of the same table object re-drawn in place
+                row = shuf[trng.randrange(len(shuf))]
+                perm = row.tolist()
+                trng.shuffle(perm)
+                row[...] = perm
         bits = case["msgs"][i]
         n_live = int((G.out_degrees(live) > 0).sum())
         out = monitored(dsw.encode, encode_budget(len(bits), n_live), np.array(bits, dtype=int), live, st["start"], is_faster=fast, shuffles=shuf)
